@@ -19,6 +19,8 @@ from fractions import Fraction as F
 
 sys.path.insert(0, os.path.dirname(os.path.abspath(__file__)))
 from lib import Check, blit, qlit, zlit   # noqa: E402
+from lib import REPO   # noqa: E402
+import gen_format   # noqa: E402  (tools/: translator tie, proved in coq/geneq/FormatGenEq.v)
 
 from geostructures.coordinates import Coordinate          # noqa: E402  (the implementation)
 from geostructures.utils.functions import round_half_up   # noqa: E402
@@ -117,6 +119,7 @@ def gen_coords(ck):
 def main():
     ck = Check('C19')
     ck.build_theories(['theories/Props/C19.vo', 'theories/Corr/FormatK.vo'])
+    rep = gen_format.main(REPO, os.path.join(ck.rundir, 'FormatGen.v')); ck.gen('FormatGen.v', rep, 'FormatGenEq.v')   # regenerated from the source, proved equal to the model
     ck.props('Props/C19.v')
     rng = ck.rng
     IMPORTS = ('From Coq Require Import QArith String.\nFrom GV Require Import Prelude CoordM FormatM FormatK.\n'
